@@ -409,6 +409,8 @@ func runC04(w *World, r *Report) {
 	r.Rule("C04.tool-stream-answers-total", "the tools node's stream form answers every call with at least one frame carrying its ToolMessage, an empty answer included — what Invoke gives for the call (shared with C18.stream-answers-total)", 1)
 	toolStreamConverterTotal(w, r, "C04.tool-stream-answers-total")
 
+	shareRule(w, r, "C04.stream-errors-forwarded", "the forwarding goroutines behind a fan-in pass error items on and stop only at io.EOF or a closed receiver: an error item in a keyed / converted stream is an error of the run in every paradigm, not a silent end of data in the streaming ones", 1, "C17", "C17.stream-errors-forwarded")
+
 	// ---- role-uniform (generalises in-out-wiring to every struct and function of the module)
 	r.Rule("C04.role-uniform", "within one function, same-role fields (input* / output*, pre* / post*) of one struct are filled from sources of one role; a lone cross-role assignment is a copy within one object", 20)
 	ruleRoleUniform(w, r, "C04.role-uniform", "compose", "schema", "internal", "flow", "callbacks", "components", "utils")
